@@ -19,8 +19,9 @@ Correspondence streams (model = lean/Drv/C20.lean over Model.Schedule):
            the faulty-configuration gate): correspondence only
   run      a real LocalScheduleObject in a real Application under virtual
            time: creation, every timer firing, writes to weeklySchedule /
-           exceptionSchedule, over several days incl. effective-period entry
-           and exit; (time, presentValue, armed deadline, exception) per step
+           exceptionSchedule / scheduleDefault / effectivePeriod, over several
+           days incl. effective-period entry and exit; (time, presentValue,
+           armed deadline, exception) per step
 Implementation-side oracles (independent of the model):
   * `denotes`: the BACnet meaning of a date pattern written directly with
     datetime (weekday, last day of month by "tomorrow is another month")
@@ -50,7 +51,7 @@ RULE = ("matchers: every day of a year x ~380 pattern classes (date: 15 month cl
         "set of value origins (out/default/weekly/exception) x number of transitions for evalday, "
         "period shape x step kinds x origins for runs; trivial = empty schedule")
 TRUSTED = ["lean/BacVerif/Model/Schedule.lean is a hand transcription of local/schedule.py (after the "
-           "four C20 fix patches) and of Date.now/Time.now; tied by the cal/now/year/evalday/evalbad/run streams",
+           "five C20 fix patches) and of Date.now/Time.now; tied by the cal/now/year/evalday/evalbad/run streams",
            "time.mktime / time.localtime under TZ=UTC are modelled by the model's own calendar (dayNum / civil) "
            "and compared on every run; DST and other zones are not modelled",
            "LocalScheduleObject._check_reliability (type checks of the configuration) is not modelled: the "
@@ -62,9 +63,9 @@ ASSUMPTIONS = ["time lists sorted by time (SortedCfg; BACnet requires it) for th
                "entry times are specific (no 255) and event priorities are 1..16 for the liveness theorems; "
                "other values are covered by correspondence (the code raises / wraps to slot 16)",
                "dates 1970..2154 for timer runs (Time.now truncates toward zero for negative clocks)",
-               "writes to scheduleDefault / effectivePeriod do not trigger a re-evaluation in the code "
-               "(only weeklySchedule / exceptionSchedule do); the property is stated for a fixed configuration "
-               "between such writes"]
+               "a write replaces one of weeklySchedule / exceptionSchedule / scheduleDefault / effectivePeriod by a "
+               "valid value (in-place mutation of a property value is invisible to the monitors; a write that makes the "
+               "configuration faulty is outside the property)"]
 
 OFFSET_US = 2208988800 * 1000000      # 1900-01-01 -> 1970-01-01
 D1900 = datetime.date(1900, 1, 1)
@@ -713,7 +714,7 @@ def origin(v):
     if isinstance(v, dict):
         return "err:" + v["err"]
     x = v[0]
-    return "default" if x == 0 else "weekly" if x < 1000 else "exc"
+    return "default" if x < 100 else "weekly" if x < 1000 else "exc"
 
 
 def sig_evalday(case, m):
@@ -884,9 +885,15 @@ def run_real(case):
                 new = changes.pop(0)[1]
                 e = None
                 try:
-                    # the two monitored properties; writing one that did not change re-evaluates as well
+                    # one property per write; writing one that did not change re-evaluates as well
+                    from bacpypes.primitivedata import Real
+                    from bacpypes.basetypes import DateRange
                     if new["exc"] != cur["exc"]:
                         so.exceptionSchedule = real.write(new)
+                    elif new["def"] != cur["def"]:
+                        so.scheduleDefault = Real(float(new["def"]))
+                    elif new["eff"] != cur["eff"]:
+                        so.effectivePeriod = DateRange(startDate=tuple(new["eff"][0]), endDate=tuple(new["eff"][1]))
                     else:
                         so.weeklySchedule = mk_weekly(new["weekly"]) if new["weekly"] is not None else None
                 except Exception as ex:
@@ -1017,12 +1024,16 @@ def gen_run(rng, quick):
             tc = rng.randrange(start // 1000000 + 1, until // 1000000) * 1000000 + 500000
             new = json.loads(json.dumps(cur))
             other = gen_cfg(rng, focus + datetime.timedelta(days=rng.randrange(0, ndays)), span=ndays)
-            if rng.random() < 0.5 and other["weekly"] is not None:
+            r2 = rng.random()
+            if r2 < 0.3 and other["weekly"] is not None:
                 new["weekly"] = other["weekly"]
-            else:
+            elif r2 < 0.6:
                 new["exc"] = other["exc"] if other["exc"] is not None else []
-                if new["exc"] == cur["exc"]:
-                    new["weekly"] = other["weekly"] or new["weekly"]
+            elif r2 < 0.8:
+                new["def"] = rng.choice([d for d in (0, 1, 2, 3) if d != cur["def"]])
+            else:
+                new["eff"] = rng.choice([other["eff"], [list(OPEN), list(OPEN)], [dd(rng.randrange(0, ndays)), list(OPEN)],
+                                         [list(OPEN), dd(rng.randrange(0, ndays))]])
             changes.append([tc, new])
             cur = new
         changes.sort(key=lambda c: c[0])
@@ -1038,8 +1049,11 @@ def fix_chain(case):
     cur = case["cfg"]
     for c in case["changes"]:
         new = c[1]
-        if new["exc"] != cur["exc"]:
-            new["weekly"] = cur["weekly"]
+        keys = ["exc", "def", "eff", "weekly"]             # the order run_real looks for the difference
+        first = next((k for k in keys if new[k] != cur[k]), "weekly")
+        for k in keys:
+            if k != first:
+                new[k] = cur[k]
         cur = new
     return case
 
